@@ -1,6 +1,6 @@
 (** C08 correspondence entries. *)
 From Coq Require Import String.
-From BV Require Import Base.Prelude Base.Codec Glob.Ast Glob.Parse Glob.Regex Glob.Translate Glob.Sem.
+From BV Require Import Base.Prelude Base.Codec Glob.Ast Glob.Parse Glob.Regex Glob.Translate Glob.Sem Glob.Known.
 
 Definition has_opt (o : str) (c : N) : bool := mem c o.
 
@@ -30,8 +30,18 @@ Definition spec_pat (ext : bool) (ps : list piece) : gpat :=
 Definition spec_bits (ext ci : bool) (ps : list piece) (ss : list str) : str :=
   let g := spec_pat ext ps in map (fun s => bit (glob_match ci g s)) ss.
 
+(** what the spec would say if ^/$ also matched at line breaks (class KF-C08-multiline-anchors);
+    only computed for subjects containing a line feed *)
+Definition spec_ml_bits (ext ci : bool) (ps : list piece) (ss : list str) : str :=
+  let g := spec_pat ext ps in
+  map (fun s => if mem 10%N s then bit (spec_multiline ci g s) else bit (glob_match ci g s)) ss.
+
+Definition class_flags (ext : bool) (p : str) : str :=
+  [bit (k_negation ext p); bit (k_lead_rbracket ext p); bit (k_esc_alnum ext p);
+   bit (k_class_ops ext p); bit (k_paren_nest ext p)].
+
 (** glob_re: <opts> <pattern> -> <regex text> <final text changed by add_missing_escape? 0/1>
-    <model parse = spec parse? 1/0> <contains !()? 1/0> *)
+    <engine status of the regex: 1 ok / 0 error or unmodelled> <class flags> *)
 Definition entry_glob_re (a : list str) : list str :=
   match a with
   | o :: p :: _ =>
@@ -40,29 +50,28 @@ Definition entry_glob_re (a : list str) : list str :=
       let t := print_regex (tr g) in
       let full := print_regex (anchored (tr g)) in
       [t; [bit (negb (str_eqb (add_missing_escape full) full))];
-       [bit (match re_status (tr g) with SOk => true | _ => false end)]; [bit (has_neg g)]]
+       [bit (match re_status (tr g) with SOk => true | _ => false end)]; class_flags ext p]
   | _ => []
   end.
 
-(** glob_m: <opts> <pattern> <alphabet> <maxlen> -> <model bits> <spec bits> *)
+(** glob_m: <opts> <pattern> <alphabet> <maxlen> -> <model bits> <spec bits> <spec-multiline bits> <class flags> *)
 Definition entry_glob_m (a : list str) : list str :=
   match a with
   | o :: p :: al :: n :: _ =>
       let ext := has_opt o 101 in
       let ci := has_opt o 105 in
       let ss := all_strs al (dec_nat n) in
-      [model_bits ext ci [PPat p] ss; spec_bits ext ci [PPat p] ss]
+      [model_bits ext ci [PPat p] ss; spec_bits ext ci [PPat p] ss; spec_ml_bits ext ci [PPat p] ss; class_flags ext p]
   | _ => []
   end.
 
-(** glob_ms: <opts> <pattern> <quoted prefix> <string>* -> <model bits> <spec bits> *)
+(** glob_ms: <opts> <pattern> <quoted prefix> <string>* -> same fields as glob_m *)
 Definition entry_glob_ms (a : list str) : list str :=
   match a with
   | o :: p :: q :: ss =>
       let ext := has_opt o 101 in
       let ci := has_opt o 105 in
       let ps := match q with [] => [PPat p] | _ => [PLit q; PPat p] end in
-      [model_bits ext ci ps ss; spec_bits ext ci ps ss]
+      [model_bits ext ci ps ss; spec_bits ext ci ps ss; spec_ml_bits ext ci ps ss; class_flags ext p]
   | _ => []
   end.
-
